@@ -203,6 +203,19 @@ def rand_pair(rng, i):
         y = P[0][1]
         Q = [(x, v - (0.4 * Q[0][1] + 0.6 * Q[-1][1]) + y) for _, v in Q]
         return P, Q
+    if i % 12 == 2:
+        # "X" family: two point-symmetric monotone curves with integer coordinates crossing at t = u = 1/2,
+        # so that the boxes of their halves only touch (closed-interval overlap is essential)
+        cx, cy = float(rng.randint(-40, 40)), float(rng.randint(-40, 40))
+        def sym(sx, sy):
+            w, h = float(rng.randint(20, 60)), float(rng.randint(20, 60))
+            a, b = float(rng.randint(2, 15)), float(rng.randint(2, 15))
+            p0 = (cx - sx * w, cy - sy * h)
+            p3 = (cx + sx * w, cy + sy * h)
+            if rng.random() < 0.5:
+                return [p0, (p0[0] + sx * a, p0[1] + sy * b), (p3[0] - sx * a, p3[1] - sy * b), p3]
+            return [p0, (cx - sx * a, cy + sy * b) if False else (cx, cy), p3] if False else [p0, (p0[0] + sx * a, p0[1] + sy * b), (p3[0] - sx * a, p3[1] - sy * b), p3]
+        return sym(1, 1), sym(1, -1)
     P = rand_curve(rng)
     Q = rand_curve(rng)
     if i % 4 == 0:
